@@ -6,10 +6,12 @@ package assets
 
 import (
 	"bytes"
+	"crypto/sha256"
 	"fmt"
 	"os"
 	"os/exec"
 	"path/filepath"
+	"runtime"
 	"sort"
 	"strconv"
 	"strings"
@@ -202,6 +204,25 @@ func (s *c20Sup) checkLoad(stage string, p *c20Proc, disk c20Disk) {
 		if len(f) < 2 || f[1] != "absent" {
 			s.rec.Inconclusive("loader did not report a missing file as missing", map[string]interface{}{"stage": stage, "L": p.load})
 		}
+	case disk.Num == 0:
+		// not one of the numbered configurations: compare the checksum of what the loader holds with the file's content
+		var c pb.ClientConf
+		if proto.Unmarshal(disk.Bytes, &c) != nil {
+			return // unparseable for us too: the disk oracle has reported it already
+		}
+		b, err := proto.Marshal(&c)
+		if err != nil {
+			return
+		}
+		if len(f) >= 5 && f[1] == "ok" && f[4] == fmt.Sprintf("%x", sha256.Sum256(b)) {
+			return
+		}
+		what := "loads-a-different-configuration"
+		if len(f) >= 2 && f[1] != "ok" {
+			what = "rejects-the-file"
+		}
+		s.violation("loader:"+what+":"+stage, "the real loader (AssetsSetDir) in a fresh process does not yield the configuration that is on disk",
+			map[string]interface{}{"disk": disk.String(), "loader": p.load})
 	case disk.Num > 0:
 		if len(f) >= 3 && f[1] == "ok" && f[2] == "same" {
 			return
@@ -484,6 +505,167 @@ func (s *c20Sup) stageBaseline() {
 }
 
 // ---- stage 1: SIGKILL at seeded random instants ---------------------------------------------------------------
+//
+// Every worker keeps ONE directory for all its rounds and never tidies it between a kill and the next store: whatever
+// a killed store left behind (a partly written temp file) is still there when the next child – a restarted client –
+// loads the directory and stores again.  That next store (the "aftermath" store) is deliberately a SMALL one, through
+// a rotating setter, so that an implementation that reuses / does not truncate an orphaned temp file publishes
+// "new configuration + tail of the interrupted big one".  Odd rounds are "steered": a large store is killed when its
+// temp file is seen to have reached a seeded size, so that an orphaned multi-megabyte temp file really exists.
+
+type c20KillWorker struct {
+	dir  string
+	disk c20Disk
+	num  int // highest store number used in this directory
+}
+
+// nextNum returns the next unused store number that is ≡ res (mod 8).
+func (w *c20KillWorker) nextNum(res int) int {
+	k := w.num + 1
+	for k%8 != res%8 {
+		k++
+	}
+	w.num = k
+	return k
+}
+
+const c20SmallLimit = 64 << 10
+
+func c20IsSmall(d c20Disk) bool { return !d.Absent && len(d.Bytes) <= c20SmallLimit }
+
+// c20SmallStore picks the setter and the number residue of a store whose result is small, given what is on disk.
+func c20SmallStore(disk c20Disk, pick int) (op string, res int) {
+	switch {
+	case disk.Absent:
+		return "SetClientConf", 1
+	case c20IsSmall(disk):
+		// every setter keeps a small configuration small (decoy version ≡ 7 is a short list)
+		switch pick % 7 {
+		case 0:
+			return "SetGeneration", 2
+		case 1:
+			return "SetDecoys", 7
+		case 2:
+			return "SetPubkey", 4
+		case 3:
+			return "SetClientConf", 1
+		case 4:
+			return "SetPhantomSubnets", 6
+		case 5:
+			return "SetGeneration", 0
+		default:
+			return "SetPubkey", 2
+		}
+	default:
+		// a large configuration on disk: only replacing the decoy list or the whole ClientConf makes it small
+		if pick%2 == 0 {
+			return "SetDecoys", 7
+		}
+		return "SetClientConf", 1
+	}
+}
+
+// one sends a store command to a live child and waits for its A line.
+func (s *c20Sup) one(p *c20Proc, cmd string) (ok bool, line string, alive bool) {
+	p.send(cmd)
+	for {
+		l, more := p.next()
+		if !more {
+			return false, l, false
+		}
+		f := strings.Fields(l)
+		if len(f) >= 3 && f[0] == "A" {
+			return f[2] == "ok", l, true
+		}
+	}
+}
+
+// aftermath: dir holds whatever a store that died left behind; p is a child freshly started there.  It performs ONE
+// small store (setter op, number k) and the file is judged as always: what it was before, or exactly the new
+// configuration.  Afterwards the debris is removed (supervisor housekeeping).  Returns the new disk state.
+func (s *c20Sup) aftermath(stage string, p *c20Proc, dir string, disk c20Disk, op string, k int, origin interface{}) (c20Disk, bool) {
+	left := c20Leftovers(dir, false)
+	want := s.expectAfter(disk, op, k)
+	if want == nil {
+		op = "SetClientConf"
+		for k%8 != 1 {
+			k++
+		}
+		want = s.want(k)
+	}
+	stale := len(left) > 0 && left[len(left)-1] > int64(len(want))
+	s.rec.Case(map[string]interface{}{"stage": stage, "debris_sizes_before": left, "disk_before": disk.String(), "small_store": k, "op": op, "new_size": len(want), "after": origin})
+	cmd := fmt.Sprintf("store %d op=%s", k, op)
+	ok, line, alive := s.one(p, cmd)
+	if !alive {
+		return disk, false
+	}
+	now, err := c20ReadDisk(dir)
+	if err != nil {
+		s.fatal("read %s: %v", dir, err)
+	}
+	now, class, isNew := s.judgeBytes(now, disk, want)
+	if isNew && op == "SetClientConf" {
+		now.Num = k
+	}
+	s.rec.Count("aftermath_small_stores", 1)
+	s.rec.Count("aftermath_small_stores."+op, 1)
+	if stale {
+		s.rec.Count("stale_temp_present_before_small_store", 1)
+		s.rec.Count("stale_temp_present_before_small_store."+op, 1)
+		s.rec.Count("stale_temp_present_before_small_store."+stage, 1)
+		s.rec.Distinct("nontrivial", "aftermath", stage, op)
+	}
+	if !ok {
+		s.rec.Count("aftermath_store_failed", 1)
+	}
+	if class != "" {
+		s.violation(fmt.Sprintf("file:%s:%s:%s", class, stage, op),
+			fmt.Sprintf("the first store of a restarted client in a directory where an earlier store had died left a ClientConf that is neither the previous nor the new configuration (%s)", class),
+			map[string]interface{}{"store": k, "op": op, "api": line, "debris_sizes_before_the_store": left, "before": disk.String(), "after": now.String(), "want_new_bytes": len(want), "earlier_death": origin})
+	} else if stale && ok && s.wantSample("aftermath", 1) {
+		s.rec.Sample(map[string]interface{}{"kind": "small store of a restarted client next to an orphaned temp file", "stage": stage, "earlier_death": origin, "debris_sizes_before_the_store": left,
+			"store": k, "op": op, "file_before": disk.String(), "file_after": now.String(), "debris_after": c20Leftovers(dir, false)})
+	}
+	c20Leftovers(dir, true)
+	return now, true
+}
+
+// aftermathFresh: the same for the sub-stages that work in throw-away directories: a new child for the small store,
+// then another one that only reloads (the real loader must yield what is on disk).
+func (s *c20Sup) aftermathFresh(stage, dir string, disk c20Disk, pick int, origin interface{}) {
+	if disk.Num == 0 && !disk.Absent {
+		if d, err := c20ReadDisk(dir); err == nil {
+			disk = d
+		}
+	}
+	p, err := s.start(dir, disk.Num)
+	if err != nil {
+		s.fatal("%s: %v", stage, err)
+	}
+	s.checkLoad(stage, p, disk)
+	op, res := c20SmallStore(disk, pick)
+	k := 1000 + pick*8
+	for k%8 != res {
+		k++
+	}
+	now, alive := s.aftermath(stage, p, dir, disk, op, k, origin)
+	p.send("quit")
+	p.drain(func(string) {})
+	exit := p.wait()
+	if !alive || exit != "exit:0" {
+		s.rec.Inconclusive("aftermath child ended unexpectedly", map[string]interface{}{"stage": stage, "exit": exit})
+		return
+	}
+	p2, err := s.start(dir, now.Num)
+	if err != nil {
+		s.fatal("%s: %v", stage, err)
+	}
+	s.checkLoad(stage, p2, now)
+	p2.send("quit")
+	p2.drain(func(string) {})
+	p2.wait()
+}
 
 func (s *c20Sup) stageKill(rounds int) {
 	const workers = 4
@@ -495,92 +677,220 @@ func (s *c20Sup) stageKill(rounds int) {
 	close(next)
 	for w := 0; w < workers; w++ {
 		wg.Add(1)
-		go func(w int) {
+		go func() {
 			defer wg.Done()
 			dir, cleanup := s.newDir("kill", "")
 			defer cleanup()
-			disk := c20Disk{Absent: true}
+			kw := &c20KillWorker{dir: dir, disk: c20Disk{Absent: true}}
 			for round := range next {
-				disk = s.killRound(dir, disk, round)
+				s.killRound(kw, round)
 			}
-		}(w)
+		}()
 	}
 	wg.Wait()
 }
 
-func (s *c20Sup) killRound(dir string, disk c20Disk, round int) c20Disk {
+func (s *c20Sup) killRound(w *c20KillWorker, round int) {
 	r := kit.Rand(fmt.Sprintf("c20/kill/%d", round))
-	cur := disk.Num
-	from := cur + 1
-	tgt := from + r.Intn(12)
-	frac := r.Float64() * 1.25
-	p, err := s.start(dir, cur)
+	p, err := s.start(w.dir, w.disk.Num)
 	if err != nil {
 		s.fatal("kill stage: %v", err)
 	}
 	defer func() { p.kill(); p.wait() }()
-	s.checkLoad("kill", p, disk)
-	cmd := fmt.Sprintf("run %d %d", from, from+63)
-	if disk.Absent {
-		cmd += " full"
-	}
-	p.send(cmd)
-	lastA, lastB, lastOp := cur, 0, ""
-	var failed []string
-	note := func(l string) {
-		f := strings.Fields(l)
-		if len(f) < 3 {
-			return
+	s.checkLoad("kill", p, w.disk)
+	healthyFail := func(what, line string) {
+		exit := "alive"
+		if line == "" || line == "WATCHDOG" {
+			p.kill()
+			exit = p.wait()
 		}
-		k, _ := strconv.Atoi(f[1])
-		switch f[0] {
-		case "B":
-			lastB, lastOp = k, f[2]
-		case "A":
-			if f[2] == "ok" {
-				lastA = k
-			} else {
-				failed = append(failed, l)
+		s.rec.Inconclusive("kill stage: unexpected child behaviour in a healthy directory", map[string]interface{}{"round": round, "what": what, "line": line, "exit": exit,
+			"child_output_tail": c20Tail(filepath.Join(s.base, "children.log"), 1500)})
+		s.fatal("kill stage: %s in a healthy directory (%q, %s)", what, line, exit)
+	}
+
+	// (1) the aftermath of the previous round's kill: a small store next to whatever that kill left behind
+	if left := c20Leftovers(w.dir, false); len(left) > 0 {
+		op, res := c20SmallStore(w.disk, r.Intn(1000))
+		var alive bool
+		w.disk, alive = s.aftermath("kill-aftermath", p, w.dir, w.disk, op, w.nextNum(res), map[string]interface{}{"round": round - 1, "kind": "SIGKILL"})
+		if !alive {
+			healthyFail("the child died during the aftermath store", "")
+		}
+	}
+
+	// (2) the stores of this round and the kill
+	var (
+		lastA, lastB int
+		lastOp       string
+		wantNew      []byte // the configuration being stored when the kill landed inside a store
+		prev         = w.disk
+		failed       []string
+		delayDesc    string
+	)
+	if round%2 == 1 {
+		// steered: a small configuration on disk, then ONE large store, killed when its temp file reaches a seeded size
+		if !c20IsSmall(w.disk) {
+			k := w.nextNum(1)
+			ok, line, alive := s.one(p, fmt.Sprintf("store %d full", k))
+			if !alive || !ok {
+				healthyFail("a small store failed", line)
+			}
+			now, err := c20ReadDisk(w.dir)
+			if err != nil {
+				s.fatal("read: %v", err)
+			}
+			var class string
+			now, class = s.judge(now, w.disk, k)
+			if class != "" {
+				s.violation("file:"+class+":healthy:SetClientConf", "after a store that returned the ClientConf file is neither what it was before nor the configuration stored",
+					map[string]interface{}{"store": k, "before": w.disk.String(), "after": now.String()})
+			}
+			w.disk, prev = now, now
+		}
+		op, res := "SetClientConf", 5
+		if r.Intn(2) == 1 {
+			op, res = "SetDecoys", 3
+		}
+		k := w.nextNum(res)
+		wantNew = s.expectAfter(w.disk, op, k)
+		if wantNew == nil {
+			op = "SetClientConf"
+			wantNew = s.want(k) // k ≡ 3 or 5: large either way
+		}
+		// the temp-file size at which to kill: anywhere in the write, sometimes "complete"
+		// (the kill takes effect some tens of microseconds after the size was seen, so small thresholds still spread over the write)
+		thr := int64(1 + r.Intn(len(wantNew)/8))
+		switch x := r.Intn(10); {
+		case x == 0:
+			thr = int64(len(wantNew))
+		case x <= 3:
+			thr = int64(1 + r.Intn(len(wantNew)))
+		}
+		delayDesc = fmt.Sprintf("when a temp file reached %d of %d bytes", thr, len(wantNew))
+		p.send(fmt.Sprintf("store %d op=%s", k, op))
+		deadline := time.Now().Add(20*time.Second + 4*s.dur["large"])
+		seenB := false
+	watch:
+		for time.Now().Before(deadline) {
+			select {
+			case l, ok := <-p.lines:
+				if !ok {
+					break watch
+				}
+				f := strings.Fields(l)
+				if len(f) >= 3 && f[0] == "B" {
+					seenB = true
+					lastB, lastOp = k, f[2]
+				}
+				if len(f) >= 3 && f[0] == "A" {
+					if f[2] == "ok" {
+						lastA = k
+					} else {
+						failed = append(failed, l)
+					}
+					break watch // too late (or an implementation without a temp file): the kill lands outside the store
+				}
+			default:
+				if seenB {
+					if left := c20Leftovers(w.dir, false); len(left) > 0 && left[len(left)-1] >= thr {
+						break watch
+					}
+				}
+				runtime.Gosched()
 			}
 		}
-	}
-	for lastB < tgt {
-		l, ok := p.next()
-		if !ok {
-			break
+		p.kill()
+		exit := p.wait()
+		p.drain(func(l string) {
+			f := strings.Fields(l)
+			if len(f) >= 3 && f[0] == "B" {
+				lastB, lastOp = k, f[2]
+			}
+			if len(f) >= 3 && f[0] == "A" {
+				if f[2] == "ok" {
+					lastA = k
+				} else {
+					failed = append(failed, l)
+				}
+			}
+		})
+		if len(failed) > 0 || exit != "killed" {
+			healthyFail("a store failed / the child ended by itself", strings.Join(failed, "; "))
 		}
-		note(l)
-	}
-	delay := time.Duration(frac * float64(s.dur[c20Size(tgt)]))
-	if delay > 0 {
-		time.Sleep(delay)
-	}
-	p.kill()
-	exit := p.wait()
-	p.drain(note)
-	if len(failed) > 0 || exit != "killed" {
-		// a store failed in a healthy directory, or the child ended by itself: not what this stage is about
-		s.rec.Inconclusive("kill stage: unexpected child behaviour in a healthy directory", map[string]interface{}{"round": round, "exit": exit, "failed": failed,
-			"child_output_tail": c20Tail(filepath.Join(s.base, "children.log"), 1500)})
-		s.fatal("kill stage: store failed / child ended in a healthy directory (exit %s, %v)", exit, failed)
+		if lastA == k {
+			prev = c20Disk{Bytes: wantNew} // acknowledged: that is the only legitimate content now
+			wantNew = nil
+		}
+		s.rec.Count("kills_steered", 1)
+	} else {
+		from := w.num + 1
+		tgt := from + r.Intn(8)
+		frac := r.Float64() * 1.25
+		cmd := fmt.Sprintf("run %d %d", from, from+63)
+		if w.disk.Num == 0 || w.disk.Num != w.num {
+			cmd += " full" // the memory does not hold c20Config(from-1)
+		}
+		p.send(cmd)
+		note := func(l string) {
+			f := strings.Fields(l)
+			if len(f) < 3 {
+				return
+			}
+			k, _ := strconv.Atoi(f[1])
+			switch f[0] {
+			case "B":
+				lastB, lastOp = k, f[2]
+			case "A":
+				if f[2] == "ok" {
+					lastA = k
+				} else {
+					failed = append(failed, l)
+				}
+			}
+		}
+		for lastB < tgt {
+			l, ok := p.next()
+			if !ok {
+				break
+			}
+			note(l)
+		}
+		delay := time.Duration(frac * float64(s.dur[c20Size(tgt)]))
+		if delay > 0 {
+			time.Sleep(delay)
+		}
+		delayDesc = fmt.Sprintf("%v after the B line of store %d", delay, tgt)
+		p.kill()
+		exit := p.wait()
+		p.drain(note)
+		if len(failed) > 0 || exit != "killed" {
+			healthyFail("a store failed / the child ended by itself", strings.Join(failed, "; "))
+		}
+		if lastB > w.num {
+			w.num = lastB
+		}
+		if lastA >= from {
+			prev = c20Disk{Bytes: s.want(lastA), Num: lastA}
+		}
+		if lastB > lastA {
+			wantNew = s.want(lastB)
+		}
 	}
 	inStore := lastB > lastA
-	k := 0
-	if inStore {
-		k = lastB
+	if !inStore {
+		wantNew = nil
 	}
-	s.rec.Case(map[string]interface{}{"stage": "kill", "round": round, "last_acknowledged": lastA, "in_progress": k, "op": lastOp, "delay_after_B": delay.String(), "target_store": tgt})
-	now, err := c20ReadDisk(dir)
+	s.rec.Case(map[string]interface{}{"stage": "kill", "round": round, "last_acknowledged": lastA, "in_progress": lastB, "in_store": inStore, "op": lastOp, "killed": delayDesc})
+	now, err := c20ReadDisk(w.dir)
 	if err != nil {
-		s.fatal("read %s: %v", dir, err)
+		s.fatal("read %s: %v", w.dir, err)
 	}
-	// previous state = the last acknowledged configuration (the disk as the previous round left it when nothing was acknowledged yet)
-	prev := disk
-	if lastA > cur {
-		prev = c20Disk{Bytes: s.want(lastA), Num: lastA}
+	now, class, isNew := s.judgeBytes(now, prev, wantNew)
+	if isNew && (round%2 == 0 || lastOp == "SetClientConf") {
+		now.Num = lastB
 	}
-	now, class := s.judge(now, prev, k)
-	left := c20Leftovers(dir, true)
+	left := c20Leftovers(w.dir, false) // NOT removed: the next round's child finds it
 	s.rec.Count("evaluations", 1)
 	s.rec.Count("kills", 1)
 	s.rec.Count("leftover_temp_files", len(left))
@@ -590,35 +900,39 @@ func (s *c20Sup) killRound(dir string, disk c20Disk, round int) c20Disk {
 	if class != "" {
 		s.violation(fmt.Sprintf("file:%s:kill:%s", class, lastOp),
 			fmt.Sprintf("after SIGKILL the ClientConf file is neither the last acknowledged configuration nor the one being stored (%s)", class),
-			map[string]interface{}{"round": round, "last_acknowledged": lastA, "in_progress": k, "op": lastOp, "size": c20Size(lastB), "before": prev.String(), "after": now.String(),
-				"want_new_bytes": len(s.want(lastB)), "leftover_sizes": left})
+			map[string]interface{}{"round": round, "last_acknowledged": lastA, "in_progress": lastB, "in_store": inStore, "op": lastOp, "killed": delayDesc, "before": prev.String(), "after": now.String(),
+				"want_new_bytes": len(wantNew), "leftover_sizes": left})
 		// continue from a clean slate
-		os.Remove(filepath.Join(dir, c20File))
-		return c20Disk{Absent: true}
+		os.Remove(filepath.Join(w.dir, c20File))
+		c20Leftovers(w.dir, true)
+		w.disk = c20Disk{Absent: true}
+		return
 	}
 	if inStore {
 		// crash state actually reached
+		size := "small"
+		if len(wantNew) > c20SmallLimit {
+			size = "large"
+		}
 		phase := "before-temp-file"
 		switch {
-		case now.Num == k && !prev.Absent && prev.Num != k:
+		case isNew:
 			phase = "renamed"
-		case now.Num == k:
-			phase = "renamed"
-		case len(left) > 0 && left[len(left)-1] == int64(len(s.want(k))):
+		case len(left) > 0 && left[len(left)-1] == int64(len(wantNew)):
 			phase = "temp-complete-not-renamed"
 		case len(left) > 0:
 			phase = fmt.Sprintf("temp-partial:%d", left[len(left)-1])
 		}
 		s.rec.Count("kills_inside_a_store", 1)
-		s.rec.Count("kill_state."+c20Size(k)+"."+strings.SplitN(phase, ":", 2)[0], 1)
-		s.rec.Count("kills_inside."+lastOp+"."+c20Size(k), 1)
-		s.rec.Distinct("nontrivial", "kill", lastOp, c20Size(k), phase)
-		s.rec.Distinct("kill_crash_states", lastOp, c20Size(k), phase)
-		if strings.HasPrefix(phase, "temp-partial") && c20Size(k) == "large" && s.wantSample("kill", 1) {
-			s.rec.Sample(map[string]interface{}{"kind": "SIGKILL", "round": round, "store": k, "op": lastOp, "size": c20Size(k), "crash_state": phase, "file_after": now.String()})
+		s.rec.Count("kill_state."+size+"."+strings.SplitN(phase, ":", 2)[0], 1)
+		s.rec.Count("kills_inside."+lastOp+"."+size, 1)
+		s.rec.Distinct("nontrivial", "kill", lastOp, size, phase)
+		s.rec.Distinct("kill_crash_states", lastOp, size, phase)
+		if strings.HasPrefix(phase, "temp-partial") && size == "large" && s.wantSample("kill", 1) {
+			s.rec.Sample(map[string]interface{}{"kind": "SIGKILL", "round": round, "store": lastB, "op": lastOp, "size": size, "killed": delayDesc, "crash_state": phase, "file_before": prev.String(), "file_after": now.String()})
 		}
 	}
-	return now
+	w.disk = now
 }
 
 // ---- stage 2: crash points and error injection at system-call granularity (strace) ---------------------------------
@@ -795,6 +1109,13 @@ func (s *c20Sup) stageStrace(label string, tmpfs bool, startNum, from, to int, e
 				st := run.Steps[len(run.Steps)-1]
 				s.rec.Sample(map[string]interface{}{"kind": "SIGKILL injected at a system call (" + label + ")", "syscall": hit.Name, "index_in_store": hit.Idx, "store": hit.Store, "op": st.Op, "size": st.Size,
 					"strace_line": c20Short(hit.Line, 160), "file_before": st.Before, "file_after": st.After, "leftover_sizes": st.Left})
+			}
+			if hit.Store > 0 {
+				// a large temp file orphaned by this death (the crash point lies after the temp file's first write)?  Then a
+				// restarted client stores something small next to it.
+				if left := c20Leftovers(dir, false); len(left) > 0 && left[len(left)-1] > c20SmallLimit {
+					s.aftermathFresh(stageKillName+"-aftermath", dir, run.Disk, n, map[string]interface{}{"kind": "SIGKILL injected by strace on entering " + hit.Name, "store": hit.Store, "index_in_store": hit.Idx, "op": ops[hit.Store]})
+				}
 			}
 			if j.pt.Store == 0 {
 				return true
@@ -1067,6 +1388,11 @@ func (s *c20Sup) faultCase(c c20FaultCase) {
 	}
 	run := s.scripted("fault-"+c.Kind, dir, startNum, steps, "", "")
 	s.reportCrash(run)
+	if c.Kind == "sigxfsz-crash" && run.expected {
+		if left := c20Leftovers(dir, false); len(left) > 0 && left[len(left)-1] > c20SmallLimit {
+			s.aftermathFresh("fault-sigxfsz-crash-aftermath", dir, run.Disk, c.K+int(c.Param%1000), map[string]interface{}{"kind": "death by SIGXFSZ in mid-write", "store": c.K, "temp_file_bytes": c.Param})
+		}
+	}
 	for _, r := range run.Steps {
 		if r.Fault == "" {
 			if !r.OK {
